@@ -62,6 +62,15 @@ impl Ctx {
             .ok()
             .and_then(|s| s.parse().ok())
             .unwrap_or(1.0);
+        // stale replay files of an earlier run with the same id / tier / seed would be misleading
+        if let Ok(rd) = std::fs::read_dir(PathBuf::from(VERIF_DIR).join("replays").join(id)) {
+            let prefix = format!("{}-{}-", tier.name(), seed);
+            for e in rd.flatten() {
+                if e.file_name().to_string_lossy().starts_with(&prefix) {
+                    let _ = std::fs::remove_file(e.path());
+                }
+            }
+        }
         Ctx {
             id: id.to_string(),
             tier,
